@@ -11,3 +11,10 @@ func setRlimitAS(n uint64) {
 	lim := syscall.Rlimit{Cur: n, Max: n}
 	_ = syscall.Setrlimit(syscall.RLIMIT_AS, &lim)
 }
+
+// catch runs f and returns what it panicked with, or nil.
+func catch(f func()) (pan interface{}) {
+	defer func() { pan = recover() }()
+	f()
+	return nil
+}
